@@ -297,6 +297,8 @@ class Prim:
             if b is None:
                 raise Unsupported("pruned edge taken")
         err = res["ret"] if res["ret"] is not None else res["err"]
+        if res["out"] is not None and res["out"][0] == "fillp":
+            return err, ("fillp", res["out"][1], res.get("fill_in"))
         return err, res["out"]
 
     def exec(self, e, env, res, errvars):
@@ -377,6 +379,9 @@ class Prim:
                     if self.src != self.dst:
                         raise Unsupported("direct put_ix from a differently typed source")
                     res["out"] = ("val", env["$in"])
+                elif isinstance(d, dict) and d.get("k") == "un" and d.get("op") == "&" and strip(d["e"]).get("n") == "xx" \
+                        and res.get("fill_in") == "xx":
+                    res["fill_in"] = "external"
                 return
             if f == "memcpy":
                 d, s = strip(a[0]), strip(a[1])
@@ -386,11 +391,17 @@ class Prim:
                        (d.get("k") == "ref" and d.get("n") == self.out_ptr) or \
                        (d.get("k") == "ref" and d.get("n") == "xp" and self.dir == "put")
                 if s_is_fillp and d_ok:
+                    # the user's fill value is in memory (native) byte order: copied into the staging word `xx` it still has to
+                    # go through put_ix_*; copied straight into the external buffer it has to be byte-swapped in place
                     res["out"] = ("fillp", n)
+                    res["fill_in"] = "xx" if d.get("k") == "un" else "xp"
                     return
             if f in ("swapn2b", "swapn4b", "swapn8b") and len(a) == 3 and const_value(a[2]) == 1 \
                     and all(strip(x).get("n") == "xp" for x in a[:2]):
-                return   # in-place byte swap of the copied fill value to external order
+                # in-place byte swap of the copied fill value to external order
+                if res.get("fill_in") == "xp" and res["out"] and res["out"][0] == "fillp" and str(res["out"][1]) == f[5]:
+                    res["fill_in"] = "external"
+                return
             raise Unsupported("call %s" % show(e)[:60])
         if k == "ret":
             v, _ = self.ev(e["e"], env)
@@ -583,6 +594,7 @@ def check_prim(ctx, p, name):
         raise AnalysisBroken("%s: construct outside the conversion-primitive form: %s" % (name, u))
     bad = {}
     ncell = 0
+    little_endian = "WORDS_BIGENDIAN" not in p.fn.unit.macros
     for v in W:
         rep, exp = model(v, p.src, p.dst)
         for fillp in ((False, True) if p.dir == "put" else (False,)):
@@ -623,6 +635,10 @@ def check_prim(ctx, p, name):
                         why = "NC_ERANGE with a user fill value does not store it"
                     elif fillp and out[1] != p.dst[1] // 8:
                         why = "fill value copied with %s bytes, external type has %d" % (out[1], p.dst[1] // 8)
+                    elif fillp and out[1] > 1 and little_endian and out[2] != "external":
+                        why = ("the user's fill value is copied %s in memory byte order and never converted to the external "
+                               "(big-endian) order: the element is stored as the byte-reversed fill value" %
+                               ("into the external buffer" if out[2] == "xp" else "into the staging word"))
                     elif not fillp and (out[0] != "const" or out[2] != "NC_FILL_" + p.X):
                         why = "NC_ERANGE without user fill stores %s, expected NC_FILL_%s" % (out[2] or out[0], p.X)
                 else:
